@@ -1490,6 +1490,13 @@ func runC12(e *Env) {
 	})
 	e.R.SetExtra("design_probes", probeOut)
 
+	// 1b. directed families outside the exhaustive alphabet (see c12_directed.go)
+	nd := x.directedContinuations(e.Pick(2, 3))
+	sr, ssamples := x.directedStalledReturns(e.Pick(12, 80))
+	e.R.SetExtra("directed_stale_continuations", nd)
+	e.R.SetExtra("directed_stalled_return_runs", sr)
+	e.R.SetExtra("directed_stalled_return_samples", ssamples)
+
 	// 2. exhaustive bounded enumeration
 	type bound struct{ Max, Len int }
 	var bounds []bound
